@@ -159,3 +159,8 @@ func init() {
 	prop("C01", "C01-R8")
 	prop("C20", "C01-R8")
 }
+
+func init() {
+	prop("C17", "C17-R4/pins")
+	prop("C14", "C17-R4/pins")
+}
